@@ -414,6 +414,25 @@ fn run(op: &Value) -> Value {
                 Err(e) => json!({"ok": false, "calls": c, "cause": e.cause().to_string()}),
             }
         }
+        "error_encode_kinds" => {
+            // C17: one error parameter of every kind through the real conjure_error::encode
+            use conjure_error::{ErrorCode, ErrorType};
+            #[derive(serde::Serialize)]
+            struct Alias(i64);
+            #[derive(serde::Serialize)]
+            struct K { b: bool, i: i32, l: i64, u: u64, d: f64, s: String, e: verif_types::types::p::TestEnum, o: Option<i32>, a: Alias, n: Option<i32>, v: Vec<i32>, unit: () }
+            impl ErrorType for K {
+                fn code(&self) -> ErrorCode { ErrorCode::InvalidArgument }
+                fn name(&self) -> &str { "Ns:K" }
+                fn instance_id(&self) -> Option<conjure_object::Uuid> { None }
+                fn safe_args(&self) -> &'static [&'static str] { &[] }
+            }
+            let se = conjure_error::encode(&K { b: false, i: -2147483648, l: i64::MIN, u: u64::MAX, d: -0.5, s: "q\"x".into(), e: verif_types::types::p::TestEnum::TwoB, o: Some(7), a: Alias(-9), n: None, v: vec![], unit: () });
+            let params: Vec<(String, String)> = se.parameters().iter().map(|(k, v)| (k.clone(), v.clone())).collect();
+            let want: Vec<(String, String)> = vec![("a", "-9"), ("b", "false"), ("d", "-0.5"), ("e", "TWO_B"), ("i", "-2147483648"), ("l", "-9223372036854775808"), ("o", "7"), ("s", "q\"x"), ("u", "18446744073709551615")]
+                .into_iter().map(|(k, v)| (k.to_string(), v.to_string())).collect();
+            json!({"ok": params == want, "params": format!("{:?}", params)})
+        }
         "nested_shapes" => {
             // C01/C05: Conjure behaviour re-applied below every container kind, natively (JSON and Smile)
             use std::collections::BTreeMap;
